@@ -433,11 +433,17 @@ def h_pace( ctx ):
         return res
     TS = dotted( recs[0][1]['_ts'] ); JS = dotted( recs[0][1]['_js'] ); CUR = dotted( recs[0][1]['_cur'] )
     # the horizon: ADV = CUR + ( lookahead or 0.0 ), CUR = self.advance()
-    tests = [ nd for nd in cfg.nodes if nd.kind == 'test' and isinstance( nd.stmt, ast.If ) and ( m := pmatch( nd.expr, '%s > _adv' % TS )) is not None ]
+    def late_( e ):
+        """`ts > adv`, possibly guarded `ts is not None and ts > adv` ( ts None: no record could be parsed from the line - nothing to pace )"""
+        m_ = pmatch( e, '%s > _adv' % TS )
+        if m_ is None and isinstance( e, ast.BoolOp ) and isinstance( e.op, ast.And ) and len( e.values ) == 2 and pmatch( e.values[0], '%s is not None' % TS ) is not None:
+            m_ = pmatch( e.values[1], '%s > _adv' % TS )
+        return m_
+    tests = [ nd for nd in cfg.nodes if nd.kind == 'test' and isinstance( nd.stmt, ast.If ) and late_( nd.expr ) is not None ]
     if not tests:
         res.bad( src, op, 'due test', 'a record is due iff not ts > advance() + lookahead' )
         return res
-    ADV = dotted( pmatch( tests[0].expr, '%s > _adv' % TS )['_adv'] )
+    ADV = dotted( late_( tests[0].expr )['_adv'] )
     horizon = pfind( op, '%s = %s + ( lookahead or 0.0 )' % ( ADV, CUR )) + pfind( op, '%s = %s + ( lookahead or 0 )' % ( ADV, CUR ))
     clock = pfind( op, '%s = self.advance()' % CUR )
     if horizon and clock:
@@ -540,6 +546,22 @@ def h_pace( ctx ):
              and not any( isinstance( b, ast.Raise ) for b in ast.walk( h )) ]
     if soft:
         res.ok( src, soft[0], 'an unparsable later record is reported and skipped' )
+        # ... and what is reported for it is "no record": the handler clears ( ts, js ) - left alone they still hold the record yielded
+        # before, which would be delivered a second time
+        cleared = set()
+        for a_ in ast.walk( soft[0] ):
+            if isinstance( a_, ast.Assign ):
+                for tg_ in a_.targets:
+                    if isinstance( tg_, ast.Tuple ) and isinstance( a_.value, ast.Tuple ) and len( tg_.elts ) == len( a_.value.elts ):
+                        cleared |= { dotted( t_ ) for t_, v_ in zip( tg_.elts, a_.value.elts ) if isinstance( v_, ast.Constant ) and v_.value is None }
+                    elif isinstance( a_.value, ast.Constant ) and a_.value.value is None:
+                        cleared.add( dotted( tg_ ))
+        leaves = any( isinstance( b_, ( ast.Continue, ast.Break, ast.Return )) for b_ in ast.walk( soft[0] ))
+        if { TS, JS } <= cleared and not leaves:
+            res.ok( src, soft[0], 'the handler clears ( %s, %s ): the skipped line is reported as ( None, None )' % ( TS, JS ))
+        else:
+            res.bad( src, soft[0], 'the handler of an unparsable line leaves ( %s, %s ) as they were' % ( TS, JS ),
+                     'the variables still hold the record yielded before the corrupt line: it is yielded - and delivered - a second time ( or, leaving the loop, the rest of the file is lost )' )
     else:
         res.bad( src, tr[0] if tr else ps, 'reader.open: a later record with an unparsable timestamp / serial ends the replay',
                  'parse_record raises ( ValueError ... ), nothing in the pacing loop catches it, the generator dies and the loader goes FAILED: every record after the corrupt one - in this and all later files - is lost, although the corrupt record alone should be skipped' )
@@ -647,6 +669,23 @@ def h_load( ctx ):
         else:
             res.bad( src, r.stmt, 'strict released by a record that may be skipped without advancing self._ts',
                      'a record with a later timestamp but an unusable payload (corrupt JSON, a note) releases strict although _ts stays at the file\'s first record: the next open is non-strict with that target, selects the same file, and its first record is delivered again - endlessly' )
+    # ---- a line no record could be parsed from arrives as ( None, None ): it is skipped before its timestamp is compared, stored or queued
+    skip = [ nd for nd in cfg.nodes if nd.kind == 'test' and isinstance( nd.stmt, ast.If ) and pmatch( nd.expr, '%s is None' % TS ) is not None
+             and any( a_ is lp for a_ in src.ancestors( nd.stmt )) and nd.stmt.body and isinstance( nd.stmt.body[-1], ast.Continue ) ]
+    uses = [ nd for nd in cfg.nodes if nd.kind in ( 'stmt', 'test' ) and nd.stmt is not None and any( a_ is lp for a_ in src.ancestors( nd.stmt ))
+             and not any( nd is k_ for k_ in skip ) and not ( skip and any( nd.stmt is x_ for b_ in skip[0].stmt.body for x_ in ast.walk( b_ )))
+             and any(( isinstance( c_, ast.Compare ) and TS in [ dotted( c_.left ) ] + [ dotted( r_ ) for r_ in c_.comparators ] and not pmatch( c_, '%s is None' % TS ) and not pmatch( c_, '%s is not None' % TS ))
+                     or ( isinstance( c_, ast.Attribute ) and dotted( c_.value ) == TS )
+                     or ( isinstance( c_, ast.Assign ) and dotted( c_.value ) == TS )
+                     for c_ in ( ast.walk( nd.expr ) if nd.kind == 'test' and getattr( nd, 'expr', None ) is not None else ast.walk( nd.stmt ) if nd.kind == 'stmt' else () )) ]
+    if not skip:
+        res.bad( src, lp, 'no `if %s is None: ... continue` in the record loop' % TS, 'a line without a parsable record is reported as ( None, None ): compared or stored like a timestamp it fails the whole replay ( TypeError ) or corrupts the position' )
+    else:
+        late_ = [ u_ for u_ in uses if not cfg.must_pass( head, u_, skip, correlated=False ) ]
+        if late_:
+            res.bad( src, late_[0].stmt, 'the timestamp of the loop is used before the ( None, None ) report is skipped', 'a line without a parsable record reaches a comparison / store of its ( absent ) timestamp' )
+        else:
+            res.ok( src, skip[0].stmt, 'a ( None, None ) report is skipped before the %d uses of the record timestamp' % len( uses ))
     # ---- position: EVERY record read ( timestamp and payload text present ) passes the in-order test that advances self._ts before the
     # iteration ends - also the records that are then skipped ( a note, corrupt JSON, invalid register data ).  A file that holds only such
     # records otherwise never moves the position, and the strict open selects it again: load() does not return
